@@ -301,7 +301,13 @@ Judge(rr, org, e) ==
   CASE e.ev = "reset"  -> {}
     [] e.ev \in {"skip", "copy", "setnil"} -> {}
     [] e.ev = "panic"  -> {"C06:panic"} \cup PanicTag(e.call)
-    [] e.ev = "rload"  -> Chk(~e.ok \/ e.val = e.want, "TOOL:hook-roundtrip") \cup Chk(e.ok \/ ~ValidRange(e.want), "SKIP:hook-rejected-valid-interval")
+    \* the hook builds intervals through the crate's own constructor, which may normalise them: the register holds
+    \* what was built (val); it must mean what was asked for (want), else the operand is not the intended one
+    [] e.ev = "rload"  -> Chk(~e.ok \/ e.val = e.want \/
+                               \A v \in Probes(Ends(e.val) \cup Ends(e.want)) :
+                                   (RInB(e.val, v) <=> RInB(e.want, v)) /\ (RSat(e.val, v) <=> RSat(e.want, v)),
+                               "SKIP:hook-constructor-changed-meaning")
+                          \cup Chk(e.ok \/ ~ValidRange(e.want), "SKIP:hook-rejected-valid-interval")
     [] e.ev = "rany"   -> Chk(e.val = <<AnyIv>>, "X:any")
     [] e.ev = "isect"  -> JIsect(rr[e.a], rr[e.b], e)
     [] e.ev = "diff"   -> JDiff(rr[e.a], rr[e.b], e)
